@@ -4,6 +4,6 @@ seed="$1"; prop="$2"; tier="${3:-quick}"
 cd /repo || exit 2
 if [ -n "$(git status --porcelain)" ]; then echo "/repo not clean"; exit 2; fi
 git apply "/verif/seeded/$seed/patch.diff" || { echo "patch does not apply"; exit 2; }
-cd /verif && ./bin/gsx.seedrun check "$prop" -tier "$tier" 2>&1 | grep -E "VIOLATION|KNOWN|INCONCLUSIVE|quick:|thorough:" | cut -c1-260 | head -12
+cd /verif && GSX_EVIDENCE=/tmp/seed_evidence ./bin/gsx.seedrun check "$prop" -tier "$tier" 2>&1 | grep -E "VIOLATION|KNOWN|INCONCLUSIVE|quick:|thorough:" | cut -c1-260 | head -12
 rc=$?
 cd /repo && git checkout -- . 
